@@ -1938,6 +1938,7 @@ func (d *decoderJsonBytes) kSlice(f *decFnInfo, rv reflect.Value) {
 	var rv9 reflect.Value
 
 	rvlen := rvLenSlice(rv)
+	rvlen0 := rvlen
 	rvcap := rvCapSlice(rv)
 	maxInitLen := d.maxInitLen()
 	hasLen := containerLenS >= 0
@@ -2031,7 +2032,8 @@ func (d *decoderJsonBytes) kSlice(f *decFnInfo, rv reflect.Value) {
 		}
 
 		rv9 = rvArrayIndex(rv, j, f.ti, true)
-		if elemReset {
+		if elemReset || j >= rvlen0 {
+
 			rvSetZero(rv9)
 		}
 		if d.d.TryNil() {
@@ -6112,6 +6114,7 @@ func (d *decoderJsonIO) kSlice(f *decFnInfo, rv reflect.Value) {
 	var rv9 reflect.Value
 
 	rvlen := rvLenSlice(rv)
+	rvlen0 := rvlen
 	rvcap := rvCapSlice(rv)
 	maxInitLen := d.maxInitLen()
 	hasLen := containerLenS >= 0
@@ -6205,7 +6208,8 @@ func (d *decoderJsonIO) kSlice(f *decFnInfo, rv reflect.Value) {
 		}
 
 		rv9 = rvArrayIndex(rv, j, f.ti, true)
-		if elemReset {
+		if elemReset || j >= rvlen0 {
+
 			rvSetZero(rv9)
 		}
 		if d.d.TryNil() {
